@@ -167,7 +167,7 @@ def rule_skel(ctx, rep):
         eok = pat.block_edge_filter(empty)
         in1, in2 = pat.in_blocks(s1), pat.in_blocks(s2)
         isflip = lambda i: any(i is x for x in flips)
-        wake = [i for i in f.all_insts() if pat.from_fn(i, "urcu_wake_all_waiters")]
+        wake = [i for i in f.all_insts() if (pat.from_fn_opt if fl == "bp" else pat.from_fn)(i, "urcu_wake_all_waiters")]
         # every path lock -> {exit, wake} passes scan2, scan1, flip
         for nm, via in (("scan2", in2), ("scan1", in1), ("flip", isflip)):
             rep.must_pass("C01.skel", "%s.lock→%s→exit" % (inst, nm), f, regl, wake, via, edge_ok=eok, to_exit=True,
